@@ -7,14 +7,16 @@ import time
 import warnings
 
 from harness.common import Ck, coq_bool, coq_list, parse_coq_N_list
-from translate import c01_kvser, c02_tables
+from translate import c01_kvloop, c01_kvser, c02_tables
 
 MANIFEST = dict(
     technique='Rocq proof (character-level KV lexer proved equal to the reader-program tokenizer model of C03 under the '
               'options Keyvalues.parse passes; Keyvalues.parse token loop with its options; template-interpreting models of '
               'serialise() and of the deprecated export(); round trip by induction over trees; chunk independence '
-              'inherited from the generic reader theorem) + ast translator for write templates, escape tables and the '
-              'decisive tests of parse/_serialise/export with kernel-checked instance obligations + vm_compute '
+              'inherited from the generic reader theorem; the token loop regenerated from the source as a decision tree by '
+              'symbolic execution of the loop body, its semantics proved equal to the hand-written token loop for the '
+              'reference tree, and a symbolic tree-equivalence checker proved sound) + ast translator for write templates, '
+              'escape tables and the decisive tests of parse/_serialise/export with kernel-checked instance obligations + vm_compute '
               'correspondences (sampled, and exhaustive at the token level) + round-trip oracle on the implementation',
     text='Theorems in Props/C01.v: for every write-template configuration accepted by cfg_ok (xcfg_ok for export()), every '
          'escape table accepted by esc_ok and every parser configuration accepted by pcfg_ok, for all trees (any '
@@ -38,9 +40,34 @@ MANIFEST = dict(
          'named booleans. The token loop model is compared with Keyvalues.parse on ALL token strings up to length 4 '
          '(thorough: 5) over a 9-symbol alphabet under all 16 option vectors (scripted tokenizer, checksums), on '
          'generated/mutated/hand-made texts under random options, and on chunk lists through the reader model; the '
-         'writers models are compared with serialise()/export() text exactly.',
-    note='Trusted: Coq kernel + vm_compute, translate/c01_kvser.py and translate/c02_tables.py, the hand model of the '
-         'token loop KV/KvParse.v (tied by the exhaustive token-level and sampled text-level correspondences), the C03 '
+         'writers models are compared with serialise()/export() text exactly. '
+         'Round 3: translate/c01_kvloop.py executes the body of the token loop of Keyvalues.parse symbolically, path by '
+         'path (control flow normalised by inlining the continuation, decided tests pruned, heap operations on '
+         'cur_block / cur_block_contents / open_keyvalues / keyvalue summarised per path into one block-stack operation '
+         'after checking that the loop invariant is re-established) into a decision tree gen_ptree (112 tests, 113 leaves) '
+         'and gen_pfinal. ploop gives the trees a semantics; parse_loop_reference_tree_is_token_loop proves that the '
+         'reference tree runs exactly like the hand-written prun from every state on every token list; '
+         'parse_loop_tree_equiv_sound proves the symbolic equivalence checker tree_equiv sound (order of independent '
+         'tests, repeated/redundant tests do not matter); loop_ok gen_ptree gen_pfinal gen_parsecfg is discharged in the '
+         'kernel, so parse_loop_tree_is_model and kv_roundtrip_source_loop* apply to the regenerated loop. Named '
+         'obligations per kind of loop token, for the push/pop sites and for the loop invariant point at the site of a '
+         'deviation; the regenerated tree is also run against prun inside the kernel on all token strings up to length 3 '
+         '(thorough 4) x 16 option vectors x 2 endings, and against Keyvalues.parse in the exhaustive token-level '
+         'correspondence. The line-break character sets and the emptiness guards of parse are read off that symbolic '
+         'execution (not off the spelling of the tests). escape_text is read semantically: its body is evaluated for '
+         'multiline=False down to <pattern>.sub(<matcher>, text) with optional "nothing to escape" fast paths; the '
+         'patterns are taken as the values the module under test holds and reduced to the set of characters they match; '
+         'the matcher must index a table whose runtime value agrees with the ESCAPES literal; a fast path must look for '
+         'every escaped character (obligation). The Tokenizer options in effect in parse (keyword-only defaults of '
+         'Tokenizer.__init__ overridden by the call) are an obligation. KV/KvFlags.v read_flag is compared with _read_flag '
+         'directly (correspondence:read_flag).',
+    note='Trusted: Coq kernel + vm_compute, translate/c01_kvser.py (incl. re._parser for the character set of the '
+         'escape patterns; checked per character against escape_text), translate/c01_kvloop.py (the symbolic reading of '
+         'the loop body: alias tracking of four variables, classification of error messages by prefix) and '
+         'translate/c02_tables.py, the meaning given to the atoms and block-stack operations in KV/KvLoop.v '
+         '(eval_atom, apply_sop) -- the hand model of the token loop KV/KvParse.v is now proved equal to the regenerated '
+         'tree under that meaning, and both are still compared with Keyvalues.parse by the exhaustive token-level and '
+         'sampled text-level correspondences --, the C03 '
          'tokenizer model Text/Tokenizer.v (tied by C03\'s exhaustive small-scope correspondence; KV/KvLex.v is no longer '
          'trusted: it is proved equal to it), CPython. _read_flag is not modelled: its verdicts enter as an arbitrary '
          'predicate (theorems hold for all of them; correspondences record the real verdicts). allow_escapes=False, '
@@ -52,6 +79,9 @@ MANIFEST = dict(
 
 IMPORTS = ['Coq.Lists.List', 'Coq.NArith.NArith', 'Coq.Bool.Bool', 'SV.KV.KvBase', 'SV.KV.KvLex', 'SV.KV.KvParse',
            'SV.KV.KvSer', 'SV.KV.KvSym', 'SV.KV.KvExport', 'SV.KV.KvEnum', 'SV.KV.KvFlags', 'SV.Gen.KVSer_gen']
+IMPORTS_LOOP = ['Coq.Lists.List', 'Coq.NArith.NArith', 'Coq.Bool.Bool', 'SV.KV.KvBase', 'SV.KV.KvLex', 'SV.KV.KvParse',
+                'SV.KV.KvLoop', 'SV.KV.KvLoopRef', 'SV.KV.KvLoopEquiv', 'SV.KV.KvLoopRoundtrip', 'SV.KV.KvEnum', 'SV.KV.KvLoopEnum',
+                'SV.Gen.KVSer_gen', 'SV.Gen.KVLoop_gen']
 IMPORTS_REFINE = ['Coq.Lists.List', 'Coq.NArith.NArith', 'Coq.Bool.Bool', 'SV.Text.Str', 'SV.Text.Prog', 'SV.Text.Tokenizer',
                   'SV.Text.TokGen', 'SV.KV.KvBase', 'SV.KV.KvLex', 'SV.KV.KvParse', 'SV.KV.KvRefine', 'SV.Gen.KVSer_gen']
 PRE = '''Import ListNotations. Open Scope N_scope.
@@ -280,7 +310,7 @@ def eval_jobs(ck: Ck, jobs: list) -> list:
     from concurrent.futures import ThreadPoolExecutor
     if not jobs:
         return []
-    with ThreadPoolExecutor(max_workers=min(10, len(jobs))) as ex:
+    with ThreadPoolExecutor(max_workers=min(8, len(jobs))) as ex:
         futs = [ex.submit(ck.coq_eval, IMPORTS, exprs if isinstance(exprs, list) else [exprs], f'{name}_{k}', 900, PRE)
                 for k, (name, exprs) in enumerate(jobs)]
         return [f.result() for f in futs]
@@ -506,6 +536,78 @@ def finish_parse(ck: Ck, cases, parts, results) -> None:
                                           'options': bits_opts(b), 'n': len(bad)}
 
 
+# ------------------------------------------------------------------------------------------------ correspondence: _read_flag
+FLAG_TEXTS = ['', '!', '!!', 'x', '!x', 'X', '!X', '!!x', 'win32', 'WIN32', '!Win32', 'x360', 'X360', '!x360', '!X360', 'zz',
+              'ZZ', '!zz', 'ß', '!ß', 'SS', 'ss', ' x', 'x ', 'ps3', 'linux', '!linux', 'osx', 'OSX', 'gameconsole',
+              '!gameconsole', '$osx', '!$OSX', 'İ', 'ǅ', 'x!', '! x']
+FLAG_MAPS = [{}, {'win32': False}, {'win32': True}, {'x360': True}, {'X360': True, 'ZZ': True}, {'zz': True}, {'osx': True, 'linux': False},
+             {'!x360': True}, {'ss': True}, {'ß': True}, {'$osx': 1, 'win32': 0}, {'': True}, {'!': True}, {'x': 0}, {'x': 1, 'X': 0},
+             {'x': ''}, {'x': 'no'}, {' x': True}, {'i̇': True}, {'ǆ': True, 'gameconsole': True}]
+
+
+def corr_read_flag(ck: Ck, shape_recognised: bool):
+    """KV/KvFlags.v read_flag against _read_flag itself: every flag text of FLAG_TEXTS under every mapping of FLAG_MAPS
+    (leading `!`, doubled `!`, case, casefold expansions, keys that can never match, falsy / truthy non-bool values),
+    plus random pairs -- many more of them when the source of _read_flag is not the recognised shape."""
+    from srctools import keyvalues as kvmod
+    rng = random.Random(ck.seed * 7919 + 17)
+    pairs = [(m, t) for m in FLAG_MAPS for t in FLAG_TEXTS]
+    alpha = ['x', 'X', '!', 'ß', 's', 'S', ' ', 'z', '3', 'w', 'i', 'n', '2', 'İ']
+    for _ in range(200 if shape_recognised and not ck.tie_broken and not ck.thorough else 3000):
+        t = ''.join(rng.choice(alpha) for _ in range(rng.randrange(0, 5)))
+        m = dict(rng.choice(FLAG_MAPS))
+        for _ in range(rng.randrange(0, 3)):
+            k = ''.join(rng.choice(alpha) for _ in range(rng.randrange(0, 4)))
+            m[k.casefold() if rng.random() < 0.7 else k] = rng.choice([True, False, 0, 1, '', 'a'])
+        if rng.random() < 0.3:
+            t = rng.choice(['', '!', '!!']) + rng.choice(list(m) or ['x'])
+        pairs.append((m, t))
+    cases = []
+    for m, t in pairs:
+        try:
+            want = bool(kvmod._read_flag(m, t))
+        except Exception as e:      # noqa: BLE001
+            ck.obligation('correspondence:read_flag', False, f'_read_flag({m!r}, {t!r}) raised {type(e).__name__}: {e}')
+            ck.tie_broken.append('correspondence read_flag: the implementation raised')
+            return [], lambda results: None
+        names = {t, t[1:]}
+        cases.append((m, {n: n.casefold() for n in names}, t, want))
+        ck.count('read_flag_correspondence_cases')
+        ck.hist('read_flag_corr', ('inverted' if t[:1] == '!' else 'plain') + ('/in-mapping' if any(
+            n.casefold() in m for n in names) else '/default' if any(n.casefold() in kvmod.FLAGS_DEFAULT for n in names)
+            else '/unknown'))
+    jobs, parts = [], []
+    for at in range(0, len(cases), 1000):
+        part = list(range(at, min(at + 1000, len(cases))))
+        lit = coq_list(
+            f'(([{"; ".join(f"({coq_chars(k)}, {coq_bool(bool(v))})" for k, v in cases[i][0].items())}], '
+            f'[{"; ".join(f"({coq_chars(a)}, {coq_chars(b)})" for a, b in cases[i][1].items())}]), '
+            f'({coq_chars(cases[i][2])}, {coq_bool(cases[i][3])}))' for i in part)
+        jobs.append(('read_flag', f'bad_idx (fun c : (list (str * bool) * list (str * str)) * (str * bool) => '
+                                  f'Bool.eqb (read_flag (cf_tbl (snd (fst c))) (fst (fst c)) {run_defaults()} (fst (snd c))) '
+                                  f'(snd (snd c))) 0 {lit}'))
+        parts.append(part)
+
+    def finish(results) -> None:
+        bad: list[int] = []
+        for part, vals in zip(parts, results):
+            if vals is None:
+                ck.obligation('correspondence:read_flag', False, 'model could not be evaluated')
+                ck.tie_broken.append('correspondence read_flag: model evaluation failed')
+                return
+            bad.extend(part[i] for i in parse_coq_N_list(vals[0]))
+        ck.obligation('correspondence:read_flag', not bad,
+                      f'{len(cases)} (mapping, flag text) pairs, KV/KvFlags.v read_flag (vm_compute) vs _read_flag: '
+                      f'{len(bad)} disagreements' + ('' if shape_recognised else
+                                                     ' (source of _read_flag not in the recognised shape: enlarged sample)'))
+        if bad:
+            m, cf, t, want = min((cases[i] for i in bad), key=lambda c: (len(c[2]), len(c[0])))
+            ck.tie_broken.append('correspondence read_flag (KV/KvFlags.v vs _read_flag)')
+            ck.extra['read_flag_disagreement'] = {'flags': {k: repr(v) for k, v in m.items()}, 'flag_text': t, 'impl': want,
+                                                  'n': len(bad)}
+    return jobs, finish
+
+
 # ------------------------------------------------------------------------------------------------ chunked delivery, model side
 PRE_CHUNK = '''Import ListNotations. Open Scope N_scope.
 Fixpoint bad_idx {A} (f : A -> bool) (n : N) (l : list A) : list N :=
@@ -634,62 +736,160 @@ def scripted_parse(word, bits: int, fin: int):
     return impl_parse(Scripted(word), None, bits_opts(bits), {'on': True})
 
 
+# token strings longer than the exhaustive scope reaches, aimed at the paths that need history: flag replacement of a leaf /
+# of a block (only right after a plain keyvalue or a closing brace, never twice in a row, same name, same kind), blocks skipped
+# by a disabled flag (nested, followed by a flagged keyvalue), braces on the same line, single_block returns
+# (symbols: 0 STR a, 1 STR b, 2 STR "a\n", 3 NEWLINE, 4 {, 5 }, 6 [on], 7 [off], 8 =)
+DIRECTED_WORDS = [
+    [0, 1, 3, 0, 1, 6, 3], [0, 1, 3, 0, 1, 7, 3], [0, 1, 3, 1, 1, 6, 3], [0, 1, 3, 0, 0, 6, 3], [0, 1, 3, 0, 1, 6, 3, 0, 1, 6, 3],
+    [0, 1, 6, 3, 0, 1, 6, 3], [0, 1, 3, 0, 6, 3, 4, 5], [0, 3, 4, 3, 5, 3, 0, 6, 3, 4, 3, 1, 1, 3, 5, 3],
+    [0, 4, 5, 0, 6, 3, 4, 1, 1, 5], [0, 4, 5, 0, 7, 3, 4, 1, 1, 5], [0, 4, 5, 1, 6, 3, 4, 5], [0, 4, 5, 0, 1, 6, 3],
+    [0, 4, 1, 1, 5, 0, 6, 3, 4, 5, 0, 6, 3, 4, 5], [0, 7, 3, 4, 1, 1, 3, 5, 3, 1, 1, 3], [0, 7, 3, 4, 1, 4, 5, 5, 0, 1, 6, 3],
+    [0, 7, 3, 4, 5, 0, 1, 6, 3], [0, 7, 3, 4, 5, 0, 6, 3, 4, 5], [0, 7, 3, 4, 0, 6, 3, 4, 5, 5, 1, 1], [0, 6, 3, 4, 1, 1, 5, 1, 1],
+    [0, 4, 1, 1, 3, 0, 4, 5, 5, 3], [0, 4, 1, 1, 1, 1, 5], [0, 4, 1, 1, 5, 1, 1, 3], [0, 4, 5, 5], [0, 4, 1, 4, 5], [0, 3, 3, 4, 5],
+    [0, 1, 3, 4, 5], [0, 1, 4, 5], [2, 1, 3, 0, 2, 3], [0, 4, 2, 1, 5], [0, 4, 0, 2, 5], [0, 1, 0, 1, 3, 0, 1, 6, 3],
+    [0, 1, 3, 0, 1, 6, 1, 1], [0, 1, 3, 0, 1, 6], [0, 6, 3, 0, 6, 3, 4, 5], [0, 4, 5, 3, 0, 6, 3, 3, 4, 5], [0, 8, 1, 3, 0, 1],
+    [0, 4, 0, 1, 3, 0, 1, 6, 3, 5, 0, 1, 6, 3], [0, 7, 3, 4, 5, 1, 4, 5], [0, 7, 3, 4, 5, 5], [0, 1, 3, 5, 0, 1, 6, 3],
+]
+
+
+def long_words(seed: int, n: int) -> list:
+    """The directed words, then n generated ones: mostly well-formed token strings (lines `name value`, `name value
+    [flag]`, blocks with the brace on its own line or on the same line, `name [flag]` blocks, nested once or twice, names
+    and values from {a, b}) of which a third get one symbol replaced / inserted / deleted."""
+    rng = random.Random(seed * 104729 + 5)
+    out = [list(w) for w in DIRECTED_WORDS]
+    syms, weights = list(range(9)), [3, 2, 0.3, 3, 1.5, 1.5, 1.2, 0.8, 0.2]
+
+    def items(depth: int, budget: list) -> list:
+        w: list = []
+        for _ in range(rng.randrange(1, 4)):
+            if budget[0] <= 0:
+                break
+            budget[0] -= 1
+            name = rng.choice([0, 0, 1])
+            kind = rng.random()
+            if kind < 0.5 or depth >= 2:
+                w += [name, rng.choice([0, 1, 1])]
+                if rng.random() < 0.45:
+                    w.append(rng.choice([6, 6, 7]))
+                w.append(3)
+            else:
+                w.append(name)
+                if rng.random() < 0.5:
+                    w += [rng.choice([6, 6, 7]), 3]
+                elif rng.random() < 0.6:
+                    w.append(3)
+                w.append(4)
+                if rng.random() < 0.6:
+                    w.append(3)
+                w += items(depth + 1, budget)
+                w.append(5)
+                if rng.random() < 0.7:
+                    w.append(3)
+        return w
+    for _ in range(n):
+        w = items(0, [rng.randrange(2, 6)])
+        if rng.random() < 0.33 and w:
+            i = rng.randrange(len(w))
+            how = rng.random()
+            if how < 0.4:
+                w[i] = rng.choices(syms, weights)[0]
+            elif how < 0.7:
+                w.insert(i, rng.choices(syms, weights)[0])
+            else:
+                del w[i]
+        out.append(w[:24])
+    return out
+
+
 def corr_tokens(ck: Ck) -> None:
-    """Exhaustive small scope at the token level."""
-    # (option bits, ending, max length).  quick: every option vector up to length 3, five vectors (none, defaults,
+    """Exhaustive small scope at the token level, plus directed / random longer token strings."""
+    # (option bits, ending, max length | 'long').  quick: every option vector up to length 3, five vectors (none, defaults,
     # single_line, single_block, all) up to length 4, a tokenizer error as ending under the defaults and single_line;
-    # thorough: every vector up to length 5.
+    # thorough: every vector up to length 5.  'long': the directed words and random words of length 5..10 under every vector.
     if ck.thorough:
         shards = [(bits, 0, 5) for bits in range(16)] + [(2, 1, 5), (6, 1, 5)]
     else:
         shards = [(bits, 0, 4 if bits in (0, 2, 6, 10, 15) else 3) for bits in range(16)] + [(2, 1, 3), (6, 1, 3)]
+    shards += [(bits, 0, 'long') for bits in range(16)] + [(2, 1, 'long')]
+    longw = long_words(ck.seed, ck.budget(250, 1000))
+    lens = [s_[2] for s_ in shards if s_[2] != 'long']
+
+    def words_of(n):
+        return longw if n == 'long' else words(n)
     want = {}
     outcomes: dict = {}
     nwords = 0
     for bits, fin, n in shards:
         tot = 0
-        for w in words(n):
+        for w in words_of(n):
             r = scripted_parse(w, bits, fin)
             tot = (tot + hash63([bits, fin, len(w), *w, *enc_result(r)])) & M63
             nwords += 1
             k = r[0] if r[0] != 'err' else ERR_NAMES.get(r[1], str(r[1]))
             outcomes[k] = outcomes.get(k, 0) + 1
+            if n == 'long':
+                ck.hist('token_long_outcome', k)
         want[(bits, fin, n)] = tot
     ck.count('token_exhaustive_cases', nwords)
     for k, v in sorted(outcomes.items()):
         ck.hist('token_exhaustive_outcome', k, v)
-    vals = ck.coq_eval(IMPORTS, [f'tok_shard_hash gen_parsecfg {b} {f} {n}' for b, f, n in shards], name='tokenum', preamble=PRE)
+    # two models against the same implementation checksums: the hand-written token loop prun (KV/KvParse.v) and the
+    # decision tree regenerated from the loop body (Gen/KVLoop_gen.v) under the semantics ploop (KV/KvLoop.v)
+    imports = IMPORTS + [i for i in IMPORTS_LOOP if i not in IMPORTS]
+    pre = PRE + 'Definition long_words : list (list N) := ' + coq_list(coq_list(str(x) for x in w) for w in longw) + '.\n'
+    tree = 'gen_ptree gen_pfinal gen_parsecfg'
+    models = [('correspondence:parse-token-exhaustive', 'prun',
+               lambda b, f, n: f'tok_shard_hash gen_parsecfg {b} {f} {n}' if n != 'long' else
+               f'sum_hash (map (tok_case_hash gen_parsecfg {b} {f}) long_words)',
+               lambda b, f, n: f'tok_shard_cases gen_parsecfg {b} {f} {n}' if n != 'long' else
+               f'map (tok_case gen_parsecfg {b} {f}) long_words',
+               'exhaustive token-level correspondence (KV/KvParse.v vs Keyvalues.parse on a scripted tokenizer)'),
+              ('correspondence:parse-token-exhaustive-regenerated-loop', 'the regenerated loop tree (ploop)',
+               lambda b, f, n: f'tree_shard_hash {tree} {b} {f} {n}' if n != 'long' else
+               f'sum_hash (map (fun w => hfin (hash_list (tree_case {tree} {b} {f} w))) long_words)',
+               lambda b, f, n: f'tree_shard_cases {tree} {b} {f} {n}' if n != 'long' else
+               f'map (tree_case {tree} {b} {f}) long_words',
+               'exhaustive token-level correspondence (regenerated loop tree vs Keyvalues.parse on a scripted tokenizer)')]
+    vals = ck.coq_eval(imports, [fn(b, f, n) for _, _, fn, _, _ in models for b, f, n in shards], name='tokenum',
+                       preamble=pre)
     if vals is None:
-        ck.obligation('correspondence:parse-token-exhaustive', False, 'model could not be evaluated')
+        for name, *_ in models:
+            ck.obligation(name, False, 'model could not be evaluated')
         ck.tie_broken.append('exhaustive token-level correspondence: model evaluation failed')
         return
     import re as _re
-    got = {sh: int(_re.sub(r'%[A-Za-z0-9_]+$', '', v.strip()), 0) for sh, v in zip(shards, vals)}
-    bad = [sh for sh in shards if got[sh] != want[sh]]
-    detail = ''
-    if bad:
-        # locate one disagreement: literal model results for the first bad shard
-        b, f, n = bad[0]
-        lits = ck.coq_eval(IMPORTS, [f'tok_shard_cases gen_parsecfg {b} {f} {n}'], name='tokenum_cases', preamble=PRE)
-        if lits is not None:
-            model = {}
-            for m in _re.finditer(r'\[([0-9; ]*)\]', lits[0][1:-1]):
-                xs = [int(x) for x in m.group(1).split(';') if x.strip()]
-                model[tuple(xs[3:3 + xs[2]])] = xs[3 + xs[2]:]
-            for w in words(n):
-                r = scripted_parse(w, b, f)
-                if model.get(tuple(w)) != enc_result(r):
-                    detail = (f'; first disagreement: options {bits_opts(b)} ending {"error" if f else "EOF"} tokens '
-                              f'{[("STR:" + repr(SYM_TOKENS[x])) if x < 3 else ["NL", "{", "}", "FLAG:on", "FLAG:off", "="][x - 3] for x in w]}'
-                              f' implementation {r} model {model.get(tuple(w))}')
-                    ck.extra['token_disagreement'] = {'options': bits_opts(b), 'ending': f, 'tokens': list(w), 'impl': r,
-                                                      'model_encoded': model.get(tuple(w))}
-                    break
-        ck.tie_broken.append('exhaustive token-level correspondence (KV/KvParse.v vs Keyvalues.parse on a scripted tokenizer)')
-    ck.obligation('correspondence:parse-token-exhaustive', not bad,
-                  f'{nwords} cases = all token strings over 9 symbols up to length {max(s_[2] for s_ in shards)} (every option '
-                  f'vector up to length {min(s_[2] for s_ in shards)}) in {len(shards)} (option vector, ending) shards, prun '
-                  f'(vm_compute) vs Keyvalues.parse on a scripted tokenizer, checksum per shard: {len(bad)} shards differ' + detail)
+    for mi, (name, what, _, cases_fn, tie) in enumerate(models):
+        mvals = vals[mi * len(shards):(mi + 1) * len(shards)]
+        got = {sh: int(_re.sub(r'%[A-Za-z0-9_]+$', '', v.strip()), 0) for sh, v in zip(shards, mvals)}
+        bad = [sh for sh in shards if got[sh] != want[sh]]
+        detail = ''
+        if bad:
+            # locate one disagreement: literal model results for the first bad shard
+            b, f, n = bad[0]
+            lits = ck.coq_eval(imports, [cases_fn(b, f, n)], name='tokenum_cases', preamble=pre)
+            if lits is not None:
+                model = {}
+                for m in _re.finditer(r'\[([0-9; ]*)\]', lits[0][1:-1]):
+                    xs = [int(x) for x in m.group(1).split(';') if x.strip()]
+                    model[tuple(xs[3:3 + xs[2]])] = xs[3 + xs[2]:]
+                for w in words_of(n):
+                    r = scripted_parse(w, b, f)
+                    if model.get(tuple(w)) != enc_result(r):
+                        detail = (f'; first disagreement: options {bits_opts(b)} ending {"error" if f else "EOF"} tokens '
+                                  f'{[("STR:" + repr(SYM_TOKENS[x])) if x < 3 else ["NL", "{", "}", "FLAG:on", "FLAG:off", "="][x - 3] for x in w]}'
+                                  f' implementation {r} model {model.get(tuple(w))}')
+                        ck.extra['token_disagreement' + ('' if mi == 0 else '_regenerated_loop')] = {
+                            'options': bits_opts(b), 'ending': f, 'tokens': list(w), 'impl': r,
+                            'model_encoded': model.get(tuple(w))}
+                        break
+            ck.tie_broken.append(tie)
+        ck.obligation(name, not bad,
+                      f'{nwords} cases = all token strings over 9 symbols up to length {max(lens)} (every option '
+                      f'vector up to length {min(lens)}) + {len(longw)} directed / generated token strings of length up to 24 under '
+                      f'every option vector, in {len(shards)} (option vector, ending) shards, {what} '
+                      f'(vm_compute) vs Keyvalues.parse on a scripted tokenizer, checksum per shard: {len(bad)} shards differ' + detail)
 
 
 # ------------------------------------------------------------------------------------------------ dynamic tie of the tables
@@ -936,7 +1136,7 @@ SEARCH_CORPUS = [
 
 
 def search(ck: Ck) -> None:
-    n = ck.budget(2500, 15000)
+    n = ck.budget(2500, 12000)
     found: dict[str, tuple] = {}
     shrinks: dict[str, int] = {}
     shrunk_docs: set = set()
@@ -1109,19 +1309,35 @@ def run(ck: Ck) -> None:
     ok_t = ck.translate('KVSer_gen', c01_kvser.translate)
     side = ck.extra.get('translated', {}).get('KVSer_gen', {})
     # the constant tables of the C03 tokenizer model (Text/TokGen.v over Gen/EscTables_gen.v, C02's translator): the
-    # refinement theorem kv_lexer_refines_tokenizer is instantiated for them
-    ok_t = ck.translate('EscTables_gen', c02_tables.translate) and ok_t
+    # refinement theorem kv_lexer_refines_tokenizer is instantiated for them.  When that translator fails closed (it is
+    # another property's, and stricter about the spelling of escape_text than translate/c01_kvser.py), everything that
+    # does not need its tables is still built and evaluated, so that C01's own named obligations point at the site.
+    ok_esc = ck.translate('EscTables_gen', c02_tables.translate)
+    # the token loop of Keyvalues.parse as a decision tree (symbolic execution of the loop body, path by path)
+    ok_t = ck.translate('KVLoop_gen', c01_kvloop.translate) and ok_t
     # KV/KvEnum.vo is used by the correspondences only (no theorem depends on it): name it explicitly
-    built = ok_t and ck.build(['Gen/KVSer_gen.vo', 'Gen/EscTables_gen.vo', 'Text/TokGen.vo', 'KV/KvEnum.vo', 'Props/C01.vo'])
+    built = ok_t and ck.build(['Gen/KVSer_gen.vo', 'Gen/KVLoop_gen.vo'] + (['Gen/EscTables_gen.vo', 'Text/TokGen.vo'] if ok_esc else [])
+                              + ['KV/KvEnum.vo', 'KV/KvLoopEnum.vo', 'Props/C01.vo'])
     if built:
-        ck.theorems('Props/C01.v')
+        # Print Assumptions of the 37 theorems takes a single coqc process 15-20 s on a loaded machine: it runs beside the
+        # instance obligations and the sampled correspondences.  It reports into a recorder of its own, whose entries are spliced in at this position
+        # after the join, so the order of the evidence does not depend on timing.
+        import shutil
+        import threading
+        rec = Ck(ck.pid, ck.tier, ck.seed)
+        at_theorems = len(ck.obligations)
+        th = threading.Thread(target=rec.theorems, args=('Props/C01.v',))
+        th.start()
         noraw = '(fun t => forallb (fun p => match p with PRaw _ | POther => false | _ => true end) t)'
-        inst = ck.instance_obligations(IMPORTS, {
+        is_push = '(fun s => match s with SOpenLast | SOpenDummy => true | _ => false end)'
+        is_pop = '(fun s => match s with SPop => true | _ => false end)'
+        inst = ck.instance_obligations(IMPORTS + [i for i in IMPORTS_LOOP if i not in IMPORTS], {
             'escape_table_covers_quote': 'esc_quote_ok gen_escfg',
             'escape_table_covers_backslash': 'esc_backslash_ok gen_escfg',
             'escape_table_covers_CR': 'esc_cr_ok gen_escfg',
             'escape_table_covers_LF': 'esc_lf_ok gen_escfg',
             'every_escape_written_is_read_back': 'esc_inverse_ok gen_escfg',
+            'escape_fast_path_covers_every_escaped_character': 'Nat.eqb (List.length gen_esc_fastpath_missing) 0',
             'block_head_lexes_to_name_NL_brace_NL(indent_braces=True)': 'head_ok gen_sercfg true',
             'block_head_lexes_to_name_NL_brace_NL(indent_braces=False)': 'head_ok gen_sercfg false',
             'block_tail_lexes_to_brace_NL(indent_braces=True)': 'tail_ok gen_sercfg true',
@@ -1131,6 +1347,9 @@ def run(ck: Ck) -> None:
             'child_indent_is_whitespace': 'child_indent_ok gen_sercfg',
             'root_child_indent_is_whitespace': 'root_indent_ok gen_sercfg',
             'root_test_of_serialise_is_identity_with_None': 'root_test_ok gen_sercfg',
+            'tokenizer_options_of_parse_are_those_of_the_lexer_model':
+                'match gen_parse_topts with cons true (cons true (cons false (cons false (cons false (cons false nil))))) => true '
+                '| _ => false end',
             'parse_newline_key_test_rejects_only_LF_CR': 'key_break_ok gen_parsecfg',
             'parse_newline_value_test_rejects_only_LF_CR': 'value_break_ok gen_parsecfg',
             'cfg_ok_and_esc_ok_and_pcfg_ok(premises of kv_roundtrip)':
@@ -1144,32 +1363,56 @@ def run(ck: Ck) -> None:
             'xcfg_ok(premise of kv_export_roundtrip)': 'xcfg_ok gen_expcfg',
             'no_store_to_tree_in_writers': 'Nat.eqb (length gen_tree_stores) 0',
             'no_mutating_call_on_tree_in_writers': 'Nat.eqb (length gen_tree_mut_calls) 0',
+            # the token loop of parse as a regenerated decision tree (Gen/KVLoop_gen.v) against the reference tree
+            'parse_loop_every_path_restores_the_block_stack_invariant': 'no_unknown gen_ptree',
+            'parse_loop_on_BRACE_OPEN_equivalent_to_reference_tree': 'equiv_on KBO gen_ptree ref_ptree',
+            'parse_loop_on_BRACE_CLOSE_equivalent_to_reference_tree': 'equiv_on KBC gen_ptree ref_ptree',
+            'parse_loop_on_NEWLINE_equivalent_to_reference_tree': 'equiv_on KNL gen_ptree ref_ptree',
+            'parse_loop_on_STRING_equivalent_to_reference_tree': 'equiv_on KStr gen_ptree ref_ptree',
+            'parse_loop_on_other_tokens_equivalent_to_reference_tree':
+                'equiv_on KFlag gen_ptree ref_ptree && equiv_on KOther gen_ptree ref_ptree',
+            'parse_loop_pushes_only_at_BRACE_OPEN_and_pops_only_at_BRACE_CLOSE':
+                f'Nat.eqb (count_sop {is_push} gen_ptree) (count_sop {is_push} (restrict0 KBO gen_ptree)) && '
+                f'Nat.eqb (count_sop {is_pop} gen_ptree) (count_sop {is_pop} (restrict0 KBC gen_ptree)) && '
+                f'negb (Nat.eqb (count_sop {is_push} gen_ptree) 0) && negb (Nat.eqb (count_sop {is_pop} gen_ptree) 0)',
+            'parse_checks_after_the_loop_equivalent_to_reference_tree': 'tree_equiv gen_pfinal ref_pfinal',
+            'parse_emptiness_guards_present': 'p_replace_guard gen_parsecfg && p_single_block_guard gen_parsecfg',
+            'loop_ok(premise of parse_loop_tree_is_model)': 'loop_ok gen_ptree gen_pfinal gen_parsecfg',
+            f'parse_loop_tree_runs_like_token_loop_model_on_all_token_strings_up_to_length_{ck.budget(3, 4)}':
+                f'tree_agrees_upto gen_ptree gen_pfinal gen_parsecfg {ck.budget(3, 4)}',
         })
-        inst.update(ck.instance_obligations(IMPORTS_REFINE, {
+        if ok_esc:
+          inst.update(ck.instance_obligations(IMPORTS_REFINE, {
             'tokenizer_model_escape_table_equals_kv_lexer_table': 'esc_tables_match gen_tables gen_escfg',
             'tokenizer_model_BARE_DISALLOWED_equals_kv_lexer_set': 'bare_tables_match gen_tables',
             'tokenizer_model_operators_are_brace_open_close_equals_comma': 'ops_match (Str.operators gen_tables)',
             'tables_match(premise of parse_any_delivery)': 'tables_match gen_tables gen_escfg',
-        }, name='inst_refine'))
+          }, name='inst_refine'))
         if not all(inst.values()):
-            ck.tie_broken.append('instance obligations over Gen/KVSer_gen.v: ' + ', '.join(k for k, v in inst.items() if not v))
+            ck.tie_broken.append('instance obligations over Gen/KVSer_gen.v / Gen/KVLoop_gen.v: ' + ', '.join(k for k, v in inst.items() if not v))
         stage['build+theorems+instances'] = round(time.time() - t_stage, 1)
         t_stage = time.time()
         tie_tables(ck, side)
         # the correspondences: cases are generated sequentially (ck.rng), the model is evaluated on all chunks in
         # parallel coqc processes, results are consumed in order
-        pending = [corr_serialise(ck), corr_parse(ck)]
+        pending = [corr_serialise(ck), corr_parse(ck), corr_read_flag(ck, bool(side.get('read_flag_shape_recognised')))]
         results = eval_jobs(ck, [j for jobs, _ in pending for j in jobs])
         at = 0
         for jobs, fin in pending:
             fin(results[at:at + len(jobs)])
             at += len(jobs)
+        th.join()
+        ck.obligations[at_theorems:at_theorems] = rec.obligations
+        ck.axioms.update(rec.axioms)
+        ck.tie_broken.extend(rec.tie_broken)
+        shutil.rmtree(rec.scratch, ignore_errors=True)
         stage['tables+correspondences'] = round(time.time() - t_stage, 1)
         t_stage = time.time()
         corr_tokens(ck)
         stage['token-exhaustive'] = round(time.time() - t_stage, 1)
         t_stage = time.time()
-        corr_chunked(ck)
+        if ok_esc:
+            corr_chunked(ck)
         stage['chunked'] = round(time.time() - t_stage, 1)
     t_stage = time.time()
     search(ck)
@@ -1185,8 +1428,10 @@ def run(ck: Ck) -> None:
     if any(k.startswith(('roundtrip:', 'roundtrip-named-node:', 'roundtrip-options:', 'indent-changes-')) for k in keys):
         for pre in ('instance:block_head_lexes', 'instance:block_tail_lexes', 'instance:leaf_lexes',
                     'instance:child_indent', 'instance:root_child_indent', 'instance:cfg_ok_and_esc_ok',
-                    'instance:escape_table', 'instance:every_escape_written', 'instance:root_test_of_serialise',
-                    'instance:parse_newline_key_test', 'instance:parse_newline_value_test'):
+                    'instance:escape_table', 'instance:every_escape_written', 'instance:escape_fast_path',
+                    'instance:root_test_of_serialise',
+                    'instance:parse_newline_key_test', 'instance:parse_newline_value_test',
+                    'instance:parse_loop_', 'instance:parse_checks_after', 'instance:parse_emptiness', 'instance:loop_ok'):
             ck.explain(pre)
     if any(k.startswith('export-roundtrip') for k in keys):
         for pre in ('instance:export_', 'instance:root_test_of_export', 'instance:xcfg_ok'):
